@@ -628,13 +628,23 @@ fn lc_family(ctx: &Ctx, report: &mut Report) -> Result<(), String> {
         let one = ckb_types::U256::from(1u64);
         for last in &lasts {
             let l = on_main(last).map(|b| b.number() as usize).unwrap_or(main.len() - 1);
-            for s in 0..=l {
+            // (start numbers above the last block and huge counts are what a hostile or confused client sends)
+            let start_numbers: Vec<u64> = (0..=l as u64).chain([l as u64 + 1, l as u64 + 7, u64::MAX]).collect();
+            for s64 in start_numbers {
+                let s = (s64.min(l as u64)) as usize;
                 let mut starts = vec![main[s].hash()];
                 if let Some(x) = side.iter().find(|x| x.number() as usize == s) {
                     starts.push(x.hash());
                 }
                 for start_hash in starts {
-                    for last_n in [0u64, 1, 3, 100] {
+                    for last_n in [0u64, 1, 3, 100, 1 << 62, u64::MAX] {
+                        // huge counts are combined with start 0 and with the out-of-range starts only
+                        if last_n > 100 && s64 != 0 && s64 <= l as u64 {
+                            continue;
+                        }
+                        if s64 > l as u64 && last_n == 3 {
+                            continue;
+                        }
                         // boundaries: the total difficulty of every second block from the start on, one above the
                         // last block's, and one in between two blocks
                         let mut bounds: Vec<ckb_types::U256> = (s..=l).step_by(2).map(|k| td[k].clone()).collect();
@@ -647,11 +657,11 @@ fn lc_family(ctx: &Ctx, report: &mut Report) -> Result<(), String> {
                                 samples.push(vec![td[s].clone(), td[s + 1].clone() + one.clone()]);
                             }
                             for diffs in samples {
-                                let what = format!("after delivery {step}: GetLastStateProof(last = {}, start = #{s}{}, last_n = {last_n}, boundary = {boundary:#x}, samples = {})", on_main(last).map(|b| format!("main#{}", b.number())).unwrap_or_else(|| "off-main".into()), if start_hash == main[s].hash() { "" } else { " (side-branch hash)" }, diffs.len());
+                                let what = format!("after delivery {step}: GetLastStateProof(last = {}, start = #{s64}{}, last_n = {last_n}, boundary = {boundary:#x}, samples = {})", on_main(last).map(|b| format!("main#{}", b.number())).unwrap_or_else(|| "off-main".into()), if start_hash == main[s].hash() { "" } else { " (side-branch hash)" }, diffs.len());
                                 let req = packed::GetLastStateProof::new_builder()
                                     .last_hash(last.clone())
                                     .start_hash(start_hash.clone())
-                                    .start_number(s as u64)
+                                    .start_number(s64)
                                     .last_n_blocks(last_n)
                                     .difficulty_boundary(Pack::pack(&boundary))
                                     .difficulties(diffs.iter().map(|d| Pack::pack(d)).collect::<Vec<packed::Uint256>>().pack())
